@@ -93,10 +93,7 @@ func checkC10(c *Ctx) {
 			continue
 		}
 		okNil, okErr := false, false
-		for _, f := range WithClosures(fn) {
-			if f == fn {
-				continue
-			}
+		for _, f := range Region(fn) {
 			AllInstrs(f, func(i ssa.Instruction) {
 				switch x := i.(type) {
 				case *ssa.Call:
@@ -307,19 +304,19 @@ func checkC10(c *Ctx) {
 				encC, _ = cl.(*ssa.Call)
 			}
 		}
-		for _, r := range Returns(iw) {
-			v := Strip(RetVals(r)[0])
-			if IsNilConst(v) {
-				continue
-			}
-			if sinkW != nil && mayCarry(v, sinkW, 0) && containsS(AtomStrings(Guards(r)), Desc(v)+" != nil") {
-				okS = true
-			}
-			if encC != nil && mayCarry(v, encC, 0) {
-				okE = true
-			}
+		whyS, whyE := "sink write not found", "EncodeEntry call not found"
+		if sinkW != nil {
+			okS, whyS = errPropagated(iw, sinkW, 1)
 		}
-		c.Check(okS && okE, "R10.4", iw.String(), "returns-failures", iw.Pos(), "encoder and sink errors are returned to the caller (which folds and reports them)")
+		if encC != nil {
+			okE, whyE = errPropagated(iw, encC, 1)
+		}
+		if !okS || !okE {
+			c.Bad("R10.4", iw.String(), "returns-failures", iw.Pos(), "encoder and sink errors are returned to the caller (which folds and reports them): sink: %s; encoder: %s", whyS, whyE)
+		}
+		if okS && okE {
+			c.OK("R10.4", iw.String(), "returns-failures", iw.Pos(), "on every path from the encoder call and from the sink write to a return, a non-nil error of that call is what the function returns (a return of anything else is guarded by that error being nil)")
+		}
 	}
 
 	// ---------------- R10.5 ----------------
@@ -456,4 +453,162 @@ func c10IsPayload(v ssa.Value, depth int) bool {
 		}
 	}
 	return false
+}
+
+
+// errPropagated decides: on every path from the call src (in fn, or in an
+// eligible helper fn calls) to a return of fn, a non-nil error result #idx of
+// src is returned to fn's caller. A return (or a φ edge feeding a return)
+// whose value does not carry that error must be guarded by "<err> == nil".
+func errPropagated(fn *ssa.Function, src *ssa.Call, idx int) (bool, string) {
+	if src.Parent() != fn {
+		// the call sits in a helper: the helper must propagate, and fn must propagate the helper's result
+		h := src.Parent()
+		ok, why := errPropagated(h, src, idx)
+		if !ok {
+			return false, "in helper " + h.Name() + ": " + why
+		}
+		for _, cl := range Calls(fn) {
+			if c2, isC := cl.(*ssa.Call); isC && StaticCallee(c2) == h {
+				res := h.Signature.Results()
+				ei := -1
+				for k := 0; k < res.Len(); k++ {
+					if types.Identical(res.At(k).Type(), types.Universe.Lookup("error").Type()) {
+						ei = k
+					}
+				}
+				if ei < 0 {
+					return false, "helper " + h.Name() + " has no error result"
+				}
+				if res.Len() == 1 {
+					ei = -1
+				}
+				return errPropagated(fn, c2, ei)
+			}
+		}
+		return false, "call site of helper " + h.Name() + " not found"
+	}
+	var errV ssa.Value
+	if idx < 0 {
+		errV = src
+	} else if src.Referrers() != nil {
+		for _, r := range *src.Referrers() {
+			if ex, ok := r.(*ssa.Extract); ok && ex.Index == idx {
+				errV = ex
+			}
+		}
+	}
+	if errV == nil {
+		return false, "the error result is discarded"
+	}
+	ed := Desc(errV)
+	nilGuard := func(atoms []Atom) bool {
+		for _, a := range AtomStrings(atoms) {
+			if a == ed+" == nil" {
+				return true
+			}
+		}
+		return false
+	}
+	isRet := func(i ssa.Instruction) bool { return false }
+	n := 0
+	for _, r := range Returns(fn) {
+		rr := r
+		if r.Block() != src.Block() && !ExistsPath(fn, src, func(i ssa.Instruction) bool { return i == ssa.Instruction(rr) }, isRet) {
+			continue
+		}
+		if r.Block() == src.Block() && instrIndex(r) < instrIndex(src) {
+			continue
+		}
+		n++
+		vals := RetVals(r)
+		v := Strip(vals[len(vals)-1])
+		if nilGuard(Guards(r)) {
+			continue
+		}
+		if ph, isPhi := v.(*ssa.Phi); isPhi {
+			for k, e := range ph.Edges {
+				if carriesErr(Strip(e), errV, 0) {
+					continue
+				}
+				pred := ph.Block().Preds[k]
+				if !nilGuard(GuardsOfBlock(pred)) && !nilGuard(edgeGuards(pred, ph.Block())) {
+					return false, "return at " + posStr(fn, r.Pos()) + " may return " + Desc(e) + " while " + ed + " is non-nil"
+				}
+			}
+			continue
+		}
+		if !carriesErr(v, errV, 0) {
+			return false, "return at " + posStr(fn, r.Pos()) + " returns " + Desc(v) + " while " + ed + " may be non-nil"
+		}
+	}
+	if n == 0 {
+		return false, "no return is reachable from the call"
+	}
+	return true, ""
+}
+
+// carriesErr: v is errV itself, or an aggregate (multierr.Append/Combine, fmt.Errorf %w, errors.Join) / φ / helper result built from it.
+func carriesErr(v, errV ssa.Value, depth int) bool {
+	if v == errV {
+		return true
+	}
+	if depth > 4 {
+		return false
+	}
+	switch x := v.(type) {
+	case *ssa.Phi:
+		for _, e := range x.Edges {
+			if !carriesErr(Strip(e), errV, depth+1) && !IsNilConst(Strip(e)) {
+				return false
+			}
+		}
+		for _, e := range x.Edges {
+			if carriesErr(Strip(e), errV, depth+1) {
+				return true
+			}
+		}
+	case *ssa.Call:
+		if f := CalleeFunc(x); f != nil {
+			switch f.FullName() {
+			case "go.uber.org/multierr.Append", "go.uber.org/multierr.Combine", "errors.Join", "fmt.Errorf":
+				for _, a := range x.Call.Args {
+					if carriesErr(Strip(a), errV, depth+1) {
+						return true
+					}
+				}
+			}
+		}
+	case *ssa.MakeInterface:
+		return carriesErr(Strip(x.X), errV, depth+1)
+	}
+	return false
+}
+
+// edgeGuards returns the atom contributed by the branch pred→succ itself.
+func edgeGuards(pred, succ *ssa.BasicBlock) []Atom {
+	if len(pred.Instrs) == 0 {
+		return nil
+	}
+	if _, ok := pred.Instrs[len(pred.Instrs)-1].(*ssa.If); !ok {
+		return nil
+	}
+	if len(succ.Instrs) == 0 {
+		return nil
+	}
+	var out []Atom
+	all := GuardsOfBlock(succ)
+	base := GuardsOfBlock(pred)
+	if len(succ.Preds) == 1 {
+		return all[len(base):]
+	}
+	return out
+}
+
+func posStr(fn *ssa.Function, p token.Pos) string {
+	if fn.Prog == nil || !p.IsValid() {
+		return "?"
+	}
+	ps := fn.Prog.Fset.Position(p)
+	return itoa(ps.Line)
 }
